@@ -14,10 +14,13 @@ TRUSTED = []
 def run(ctx, intensify=False):
     res = PropResult()
     outs = ctx.pmap(so.shard, [(ctx.seed * 1000 + i, ctx.n(8, 60) * (2 if intensify else 1), [PROP]) for i in range(ctx.nproc)])
-    cases = ok = toggles = 0
+    cases = ok = toggles = corr = 0
+    dis = []
     raised, dates, hashes = {}, {}, set()
     for o in outs:
         res.violations += o["violations"]
+        dis += o["disagreements"]
+        corr += o["corr"]
         cases += o["cases"]
         ok += o["sims_ok"]
         toggles += o["toggles"]
@@ -27,6 +30,8 @@ def run(ctx, intensify=False):
             raised[k] = raised.get(k, 0) + v
         for k, v in o["dates"].items():
             dates[k] = dates.get(k, 0) + v
+    res.suites.append({"name": "K-engine(toggles)", "cases": corr, "observations": toggles, "disagreements": dis, "inconclusive": 0,
+                       "distribution": {"note": "after every toggle the object in every slot of the simulation is compared with Model D's slot store"}})
     res.suites.append({"name": "K-sim", "cases": cases, "observations": cases + toggles, "disagreements": [], "inconclusive": 0,
                        "distribution": {"dates": dates, "raised": raised, "succeeded": ok, "toggles": toggles}})
     res.evaluations = cases
